@@ -140,3 +140,108 @@ func c05Config(c *mc.Check, depth int) {
 	f.Sample(c05cCase{1, []int{2, 5}})
 	f.Done()
 }
+
+// ---- configuration values as strings: a plain key is the configured value, byte for byte ----
+
+var c05vSymbols = []string{"v", " ", "\t", "\u00a0", "-", "/", "=", ":", "\"", "é", "\xff", "*"}
+
+// c05vCheck: the value s is configured under the key cfg — through SetConfig on
+// a literal Result and, where a configuration line can carry it, through a
+// Reader — and the plain key must project to exactly the bytes the Result's
+// Config entry holds (read here directly from the slice), and literal filters
+// must tell it from its neighbours.
+func c05vCheck(s string) string {
+	var results []*benchfmt.Result
+	lit := &benchfmt.Result{Name: benchfmt.Name("X"), Iters: 1, Values: []benchfmt.Value{{Value: 1, Unit: "u"}}}
+	lit.SetConfig("before", "b")
+	lit.SetConfig("cfg", s)
+	lit.SetConfig("after", "a")
+	results = append(results, lit)
+	if !strings.ContainsAny(s, "\n\r") {
+		rd := benchfmt.NewReader(strings.NewReader("before: b\ncfg: "+s+"\nafter: a\nBenchmarkX 1 1 u\n"), "f")
+		if rd.Scan() {
+			if r, ok := rd.Result().(*benchfmt.Result); ok {
+				results = append(results, r, r.Clone())
+			}
+		}
+	}
+	var pp ProjectionParser
+	p, err := pp.Parse("cfg", nil)
+	if err != nil {
+		return err.Error()
+	}
+	fld := p.Fields()[0]
+	for ri, res := range results {
+		want := ""
+		for _, c := range res.Config {
+			if c.Key == "cfg" {
+				want = string(c.Value)
+			}
+		}
+		if ri == 0 && want != s {
+			return fmt.Sprintf("SetConfig(cfg, %q) stored %q", s, want)
+		}
+		if got := p.Project(res).Get(fld); got != want {
+			return fmt.Sprintf("result %d: key cfg projects to %q, the configured value is %q", ri, got, want)
+		}
+		for _, o := range []string{want, strings.TrimRight(want, " \t"), strings.TrimSpace(want), want + " ", " " + want, strings.TrimLeft(want, " \t"), ""} {
+			f, err := NewFilter("cfg:" + strconv.Quote(o))
+			if err != nil {
+				return fmt.Sprintf("filter cfg:%q: %v", o, err)
+			}
+			m, _ := f.Match(res)
+			if m.All() != (o == want) {
+				return fmt.Sprintf("result %d: filter cfg:%q matches=%v, the configured value is %q", ri, o, m.All(), want)
+			}
+		}
+	}
+	return ""
+}
+
+func c05Values(c *mc.Check, maxLen int) {
+	replay := func(raw json.RawMessage) string {
+		var b []byte
+		if err := json.Unmarshal(raw, &b); err != nil {
+			return err.Error()
+		}
+		var msg string
+		if p := mc.Catch(func() { msg = c05vCheck(string(b)) }); p != "" {
+			return p
+		}
+		return msg
+	}
+	f := c.Family("configuration-value-strings", fmt.Sprintf("every string of ≤%d symbols from %q configured under one key between two others — by SetConfig on a literal Result and, as a configuration line, through a Reader (its own result and a Clone): the plain key projects to exactly the bytes of the Result's Config entry, the literal filter on those bytes matches and the filters on its neighbours (blanks trimmed on either side, a blank added, the empty value) do not; non-trivial = values beginning or ending in a blank", maxLen, c05vSymbols), replay)
+	if c.Replaying() {
+		return
+	}
+	en := mc.NewStrings(c05vSymbols, maxLen)
+	done := mc.ParRange(en.Total(), 256, c.TimeUp, func(w int, lo, hi uint64) {
+		l := f.Local()
+		var sym []int
+		var buf []byte
+		for i := lo; i < hi; i++ {
+			sym, buf = en.Render(i, sym, buf)
+			s := string(buf)
+			var msg string
+			if p := mc.Catch(func() { msg = c05vCheck(s) }); p != "" {
+				msg = p
+			}
+			l.Evals++
+			if s != strings.TrimSpace(s) {
+				l.Nontrivial++
+				l.Outcome("blank at an end")
+			} else {
+				l.Outcome("no blank at an end")
+			}
+			if msg != "" {
+				c.Fail(f, "plain-key-value", []byte(s), msg)
+			}
+		}
+		l.Flush()
+	})
+	if done < en.Total() {
+		f.Capped(fmt.Sprintf("time cap: %d of %d", done, en.Total()))
+	}
+	f.Sample([]byte("v "))
+	f.Done()
+}
